@@ -34,12 +34,16 @@ CardM == [allprop |-> TRUE, props |-> << >>, hrefs |-> <<"h2", "h1">>]
 Propfind == El(DAV, "propfind", << >>, <<El(DAV, "prop", << >>, <<El(DAV, "resourcetype", << >>, << >>), El(DAV, "getetag", << >>, << >>)>>)>>)
 Mkcol(ns, t) == El(DAV, "mkcol", << >>, <<El(DAV, "set", << >>, <<El(DAV, "prop", << >>, <<El(DAV, "resourcetype", << >>, <<El(DAV, "collection", << >>, << >>), El(ns, t, << >>, << >>)>>),
                                                                                               El(DAV, "displayname", << >>, <<Txt("t1")>>)>>)>>)>>)
+Proppatch == El(DAV, "propertyupdate", << >>, <<El(DAV, "set", << >>, <<El(DAV, "prop", << >>, <<El(DAV, "displayname", << >>, <<Txt("t1")>>)>>)>>),
+                                                 El(DAV, "remove", << >>, <<El(DAV, "prop", << >>, <<El(CAL, "calendar-description", << >>, << >>)>>)>>)>>)
 Edits(d) == Muts(d) \cup Grafts(d, Big)
 Mutants == {[srv |-> "cal", m |-> "REPORT", level |-> 3, doc |-> d] : d \in Edits(Cal!QueryDoc(CalQ)) \cup Edits(Cal!MultigetDoc(CalM))}
            \cup {[srv |-> "card", m |-> "REPORT", level |-> 3, doc |-> d] : d \in Edits(Card!QueryDoc(CardQ)) \cup Edits(Card!MultigetDoc(CardM))}
            \cup UNION {{[srv |-> s, m |-> "PROPFIND", level |-> lv, doc |-> d] : lv \in {1, 3} \cap LevelsOf(s), d \in Edits(Propfind)} : s \in Srvs}
            \cup {[srv |-> "cal", m |-> "MKCOL", level |-> 3, doc |-> d] : d \in Edits(Mkcol(CAL, "calendar"))}
            \cup {[srv |-> "card", m |-> "MKCOL", level |-> 3, doc |-> d] : d \in Edits(Mkcol(CARD, "addressbook"))}
+           \* PROPPATCH: the CalDAV server answers a valid one 501 (not implemented), so only "a complete response, no panic" is required there
+           \cup UNION {{[srv |-> s, m |-> "PROPPATCH", level |-> lv, doc |-> d] : lv \in {2, 3} \cap LevelsOf(s), d \in Edits(Proppatch)} : s \in Srvs \ {"principal"}}
 \* F0: the classification is total and the unmutated documents are valid requests
 ASSUME \A r \in Reqs : Expect(r) \in {"4xx", "any", "not5xx"}
 ASSUME \A r \in Reqs : (r.m \in {"GET", "HEAD", "DELETE", "OPTIONS", "FOO", "POST", "LOCK"} /\ r.depth # "bad") => Expect(r) = "any"
